@@ -557,7 +557,7 @@ func (g *Gen) instr(ins ssa.Instruction) {
 		g.vals[x] = &Val{T: x.Type(), Sort: "Ptr", S: []string{obj, "0"}}
 	case *ssa.Store:
 		// opaque view: z[k] = v on a scalar-field element replaces the one opaque cell by an unknown value whose k-th
-		// Montgomery limb is v and whose other limbs are unchanged (spec/field.smt2: fr_mlimb)
+		// Montgomery limb is v and whose other limbs are unchanged (spec/frmlimb.smt2: fr_mlimb)
 		if ia, ok := x.Addr.(*ssa.IndexAddr); ok {
 			if pt, ok := ia.X.Type().Underlying().(*types.Pointer); ok && g.lay.view.opaqueSort(pt.Elem()) == "Fr" {
 				bp := g.val(ia.X)
@@ -749,7 +749,7 @@ func (g *Gen) unop(x *ssa.UnOp) *Val {
 	case token.MUL: // load
 		g.nilCheck(v, x.Pos(), "load")
 		// opaque view: z[k] of a scalar-field element is the k-th Montgomery limb of the one opaque cell
-		// (fr_mlimb of spec/field.smt2), not an unrelated integer cell
+		// (fr_mlimb of spec/frmlimb.smt2, which the unit must list as a prelude), not an unrelated integer cell
 		if ia, ok := x.X.(*ssa.IndexAddr); ok {
 			if pt, ok := ia.X.Type().Underlying().(*types.Pointer); ok && g.lay.view.opaqueSort(pt.Elem()) == "Fr" {
 				bp := g.val(ia.X)
